@@ -69,7 +69,55 @@ def split_ops(lines):
             cur["panic"] = True
         elif l.startswith(("XINV ", "XCALL ")):
             cur.setdefault("calls", []).append(l.split())
+        elif l.startswith("XEV "):
+            t = l.split()
+            cur.setdefault("evlog", []).append((int(t[1]), int(t[2]), t[3]))
     return ops
+
+
+def evlog_times(ops):
+    """C17 'every received message, local message and issued action appears in the event log with the right time':
+    the entries a process's event log gained during an API call (XEV lines) must carry the time of one of the
+    handler invocations of that process during the call (= the time of the MessageReceived / LocalMessageReceived /
+    TimerFired trace entry that triggered it), be non-decreasing, and contain one MS / LS entry per MessageSent /
+    LocalMessageSent trace entry of the process."""
+    fails = []
+    last = {}
+    for o in ops:
+        ev = o.get("evlog")
+        if not ev:
+            continue
+        times = {}
+        sent = {}
+        for (kind, f, m) in o["logs"]:
+            if kind == "MessageReceived":
+                times.setdefault(f[5], set()).add(f[0])
+            elif kind == "LocalMessageReceived":
+                times.setdefault(f[2], set()).add(f[0])
+            elif kind == "TimerFired":
+                times.setdefault(f[4], set()).add(f[0])
+            elif kind == "MessageSent":
+                sent[(f[3], "MS")] = sent.get((f[3], "MS"), 0) + 1
+            elif kind == "LocalMessageSent":
+                sent[(f[2], "LS")] = sent.get((f[2], "LS"), 0) + 1
+            elif kind == "ProcessStarted":
+                last.pop(f[2], None)
+        got = {}
+        for (p, t, k) in ev:
+            if t not in times.get(p, ()):
+                fails.append(("C17:evlog_times", "event-log entry %s of process %d carries time %r, but its handlers ran at %s" % (
+                    k, p, bits_f64(t), sorted(bits_f64(x) for x in times.get(p, ())))))
+                break
+            if p in last and bits_f64(t) < bits_f64(last[p]):
+                fails.append(("C17:evlog_times", "event log of process %d goes back in time" % p))
+                break
+            last[p] = t
+            if k in ("MS", "LS"):
+                got[(p, k)] = got.get((p, k), 0) + 1
+        else:
+            if got != sent:
+                fails.append(("C17:evlog_times", "sends in the event logs %s vs sends in the trace %s during one call" % (got, sent)))
+    return fails
 
 
 def api_timer_contract(ops):
@@ -170,6 +218,23 @@ def monitor(sc, impl_lines):
                 rates["dupl"] = bits_f64(sl[3])
             elif k == "CORRUPTRATE":
                 rates["corrupt"] = bits_f64(sl[3])
+            # link state is taken from the API calls of the SCRIPT (not from what the implementation logs about
+            # them): only these calls may change it - in particular a crash or a recovery must not
+            elif k == "DROPIN": drop_in.add(int(sl[3]))
+            elif k == "PASSIN": drop_in.discard(int(sl[3]))
+            elif k == "DROPOUT": drop_out.add(int(sl[3]))
+            elif k == "PASSOUT": drop_out.discard(int(sl[3]))
+            elif k == "DISCONNECT": drop_in.add(int(sl[3])); drop_out.add(int(sl[3]))
+            elif k == "CONNECT": drop_in.discard(int(sl[3])); drop_out.discard(int(sl[3]))
+            elif k == "DISABLELINK": links.add((int(sl[3]), int(sl[4])))
+            elif k == "ENABLELINK": links.discard((int(sl[3]), int(sl[4])))
+            elif k == "RESET": drop_in.clear(); drop_out.clear(); links.clear()
+            elif k == "PARTITION":
+                n1 = int(sl[3]); g1 = [int(x) for x in sl[4:4 + n1]]
+                n2 = int(sl[4 + n1]); g2 = [int(x) for x in sl[5 + n1:5 + n1 + n2]]
+                for a in g1:
+                    for b in g2:
+                        links.add((a, b)); links.add((b, a))
         in_crash_block = False
         for (kind, f, m) in o["logs"]:
             pos += 1
@@ -178,23 +243,7 @@ def monitor(sc, impl_lines):
             if last_time is not None and bits_f64(t) < bits_f64(last_time):
                 fail("C06:time_monotone", "trace time goes back at %s (op %d)" % (kind, li))
             last_time = t
-            if kind == "DropIncoming": drop_in.add(f[1])
-            elif kind == "PassIncoming": drop_in.discard(f[1])
-            elif kind == "DropOutgoing": drop_out.add(f[1])
-            elif kind == "PassOutgoing": drop_out.discard(f[1])
-            elif kind == "NodeDisconnected": drop_in.add(f[1]); drop_out.add(f[1])
-            elif kind == "NodeConnected": drop_in.discard(f[1]); drop_out.discard(f[1])
-            elif kind == "LinkDisabled": links.add((f[1], f[2]))
-            elif kind == "LinkEnabled": links.discard((f[1], f[2]))
-            elif kind == "NetworkReset": drop_in.clear(); drop_out.clear(); links.clear()
-            elif kind == "NetworkPartition":
-                g = re.findall(r"\[([^\]]*)\]", m)
-                g1 = [int(x) for x in g[0].split(",") if x]
-                g2 = [int(x) for x in g[1].split(",") if x]
-                for a in g1:
-                    for b in g2:
-                        links.add((a, b)); links.add((b, a))
-            elif kind == "NodeCrashed":
+            if kind == "NodeCrashed":
                 crashed[f[1]] = pos
                 crash_events.append((pos, f[1]))
                 in_crash_block = True
@@ -378,10 +427,11 @@ def monitor(sc, impl_lines):
         if final_is_drain and not crash_events and not s["drop_at_send"] and s["recv"] == 0:
             fail("C05:delivered", "message %d was neither dropped nor delivered although the queue was drained and no node crashed" % mid)
     fails.extend(api_timer_contract(ops))
+    fails.extend(evlog_times(ops))
     return fails
 
 
 CLAUSES = ["C05:sent_before", "C05:link_enabled", "C05:payload", "C05:copies", "C05:drop_rate", "C05:same_node",
            "C05:delivered", "C06:time_monotone", "C06:arrival", "C06:timer_exact", "C06:step", "C06:steps", "C06:duration",
-           "C06:until_no_events", "C06:until_local", "C07:timer_contract", "C07:api_contract", "C08:inflight_cancelled",
+           "C06:until_no_events", "C06:until_local", "C07:timer_contract", "C07:api_contract", "C17:evlog_times", "C08:inflight_cancelled",
            "C08:silent_while_crashed", "C17:ids", "C17:one_fate", "C17:counters", "C17:read_local"]
